@@ -232,6 +232,27 @@ def check_user_pass(ctx, case, c, ref, perm, funcs):
     if not survivors and not rewritten_ok:
         ctx.oracle_fail("user", case, "the user gate disappeared in a pass that does not rewrite it", eq)
         return
+    if p is not None and p[0] == "merge" and type(ustmt).__name__ == "BlochSphereRotation":
+        # merging rewrites a user rotation only by composing it with a neighbour: when the statements next to it on its
+        # qubit are not single-qubit gates there is nothing to compose it with, and it keeps its name and arguments (an
+        # identity-valued rotation is dropped by the merger: nothing is demanded for it)
+        uq = oracles.stmt_qubits(ustmt)[0]
+
+        def neighbour_is_rotation(rng_):
+            for i in rng_:
+                t = before[i]
+                if type(t).__name__ == "Comment":
+                    continue
+                if uq in oracles.stmt_qubits(t):
+                    return type(t).__name__ == "BlochSphereRotation"
+                # (the merger flushes every qubit at a barrier-like statement; statements on other qubits do not matter)
+            return False
+
+        lone = not neighbour_is_rotation(range(pos - 1, -1, -1)) and not neighbour_is_rotation(range(pos + 1, len(before)))
+        if lone and not ustmt.is_identity() and not any(oracles.is_gate(t) and getattr(t, "generator", None) is not None and t.generator.__name__ == uname
+                            and ser.canon_args(t.arguments) == uargs for t in after):
+            ctx.oracle_fail("user", case, "merging found nothing to compose the user gate with, yet the gate lost its name or arguments", eq)
+            return
     if p and p[0] == "replace_user":
         if len(called) != 1 or ser.canon_args(called[0]) != uargs:
             ctx.oracle_fail("user", case, f"replace() keyed on the user gate called the rule {len(called)} times / with other arguments", eq)
